@@ -444,6 +444,7 @@ def _default_replacements():
     register_replacement(_np.linalg.inv, PROXY.linalg.inv)
     register_replacement(_np.linalg.solve, PROXY.linalg.solve)
     register_replacement(_np.linalg.det, PROXY.linalg.det)
+    register_replacement(_np.isnan, PROXY.isnan)
     from . import spstub
 
     spstub.register(register_replacement)
@@ -477,12 +478,20 @@ def symbolic_mode(extra_modules=(), prefixes=_PREFIXES):
             if r is not None and r[0] is val:
                 saved.append((d, name, val))
                 d[name] = r[1]
-            elif isinstance(val, types.FunctionType) and val.__defaults__ and getattr(val, "__module__", None) == getattr(m, "__name__", None):
-                # default arguments bound at def time (e.g. solve=np.linalg.solve)
-                new = tuple(_REPLACE[id(x)][1] if id(x) in _REPLACE and _REPLACE[id(x)][0] is x else x for x in val.__defaults__)
-                if any(a is not b for a, b in zip(new, val.__defaults__)):
-                    saved_defaults.append((val, val.__defaults__))
-                    val.__defaults__ = new
+            else:
+                funcs = []
+                if isinstance(val, types.FunctionType) and getattr(val, "__module__", None) == getattr(m, "__name__", None):
+                    funcs = [val]
+                elif isinstance(val, type) and getattr(val, "__module__", None) == getattr(m, "__name__", None):
+                    funcs = [f for f in vars(val).values() if isinstance(f, types.FunctionType)]
+                for fn in funcs:
+                    if not fn.__defaults__:
+                        continue
+                    # default arguments bound at def time (e.g. solve=np.linalg.solve, fx=np.isnan)
+                    new = tuple(_REPLACE[id(x)][1] if id(x) in _REPLACE and _REPLACE[id(x)][0] is x else x for x in fn.__defaults__)
+                    if any(a is not b for a, b in zip(new, fn.__defaults__)):
+                        saved_defaults.append((fn, fn.__defaults__))
+                        fn.__defaults__ = new
     # names that are imported at call time (e.g. `from scipy.special import erf` inside a function)
     try:
         import scipy.special as _sps
